@@ -184,6 +184,10 @@ def run(call: GeneratorCall) -> Module:
         msg = f"Generator {call.gen} returned {m}, must return `Module`."
         raise RuntimeError(msg)
 
+    # Modules handed along from another `Generator` were named, uniquely, by the call which created them.
+    # Naming them again would make their names depend on which other generators have returned them, and when.
+    named_by_generator = m._generated_by is not None
+
     # Give the result a reference back to the generating `Call`
     m._generated_by = call
 
@@ -193,7 +197,7 @@ def run(call: GeneratorCall) -> Module:
         m.name = call.gen.name
 
     # If it has a nonzero number of parameters, add a unique suffix per its parameter-values
-    if hasparams(call.gen.Params):
+    if hasparams(call.gen.Params) and not named_by_generator:
         m.name += "(" + _unique_name(call.params) + ")"
 
     # Store the result in our cache, and on the Call.
